@@ -15,8 +15,8 @@ claim("C01", "other",
       "Level 'other': the reference model (oracle/z80sem.py) is written from the documentation by the same author and is trusted; instruction *sequences* are covered only through MEMPTR/Q being part of the compared state. An equality the procedure cannot decide is reported as OPEN (none on this tree), a difference only with a concrete witness. Trusted: rustc MIR, mirfacts, zxwalk, zx/term.py + zx/cec.py.",
       "DESIGN.md §3 C01")
 claim("C04", "other",
-      "constant propagation through the spec builders + extraction of the delay function as a piecewise closed form tabulated against the documented formula + path-sensitive effect traces of the controller's bus methods",
-      "Machine constants, the delay function over every T of the frame, the contended-bank tables, the guard/pairing of the delay in wait_mreq/wait_no_mreq, and the four port wait patterns of read_io/write_io are decided for both machines.",
+      "constant propagation through the spec builders + extraction of the delay function as a piecewise closed form tabulated against the documented formula + path-sensitive effect traces of the controller's bus methods; per-encoding bus-trace extraction vs the documented M-cycle table (rule shared with C03)",
+      "Machine constants, the delay function over every T of the frame, the contended-bank tables, the guard/pairing of the delay in wait_mreq/wait_no_mreq, and the four port wait patterns of read_io/write_io are decided for both machines. Which cycles an instruction performs, their lengths and the address on every single internal T-state (shared with C03).",
       "Not decided: per-instruction totals at every beam position (composition of C03 traces with the delay table). The statement's '(T-T0) mod 8' is read per picture line (the ULA fetch cycle restarts each line; identical on the 48K, differs on the 128K where 228 is not a multiple of 8).",
       "DESIGN.md §3 C04")
 claim("C05", "other",
@@ -40,8 +40,8 @@ claim("C08", "other",
       "Not decided: writes landing within the tolerance window around the beam (the statement says 'clearly before/after').",
       "DESIGN.md §3 C08")
 claim("C09", "other",
-      "mod-ref on border_color; constant tables; extracted closed form of next_border_pixel tabulated against the documented beam position for every T; path post-conditions of set_border/new_frame; loop-body interpretation of fill_to",
-      "Writers and bit provenance of the reported colour, the beam->pixel map within 16 px for every clock of the frame on both machines, painting of [last change, beam) with the old colour, whole-border repaint when nothing changed, per-frame flag reset.",
+      "mod-ref on border_color; constant tables; extracted closed form of next_border_pixel tabulated against the documented beam position for every T; path post-conditions of set_border/new_frame; loop-body interpretation of fill_to; ULA-write leaf of the port decode walk (rule shared with C07)",
+      "Writers and bit provenance of the reported colour, the beam->pixel map within 16 px for every clock of the frame on both machines, painting of [last change, beam) with the old colour, whole-border repaint when nothing changed, per-frame flag reset. On every write_io path reaching the ULA the colour is data & 7 and the change is stamped with the controller's clock at the device write.",
       "The repaint after an SZX load that stores the border directly is judged under C14.",
       "DESIGN.md §3 C09")
 claim("C10", "other",
@@ -60,8 +60,8 @@ claim("C12", "other",
       "Not decided: that the concatenated waveform decodes to the blocks (C11 + data).",
       "DESIGN.md §3 C12")
 claim("C17", "other",
-      "constant propagation over every enum value (key matrix, compound, joystick tables) + bit-level term equivalence of the event handlers + mod-ref per matrix; devices located by role (state changed by the public senders); mod set of every input method",
-      "40-key matrix, 7 compound keys, 2x5 Sinclair controls, 8 Kempston bits, 4 mouse buttons, wheel and motion arithmetic, source separation of the three matrices, CAPS SHIFT release rule. Every send_* method changes only the device it feeds.",
+      "constant propagation over every enum value (key matrix, compound, joystick tables) + bit-level term equivalence of the event handlers + mod-ref per matrix; devices located by role (state changed by the public senders); mod set of every input method; ULA-read leaf of the port decode walk (rule shared with C07)",
+      "40-key matrix, 7 compound keys, 2x5 Sinclair controls, 8 Kempston bits, 4 mouse buttons, wheel and motion arithmetic, source separation of the three matrices, CAPS SHIFT release rule. Every send_* method changes only the device it feeds. Every ULA read is the AND of the three matrices over exactly the selected half-rows.",
       "One open known finding (Sinclair joystick 2 'down'); the row AND across matrices is decided under C07.",
       "DESIGN.md §3 C17")
 claim("C18", "other",
@@ -95,7 +95,7 @@ claim("C14", "other",
       "Not decided: equality of behaviour of two encodings, zlib correctness, KEYB (not listed by the statement).",
       "DESIGN.md §3 C14")
 claim("C15", "other",
-      "potential-panic inventory: path-sensitive interpretation of every loader entry with the asset as an opaque source of bytes, lengths and failures; sites discharged by constants, dominating branch conditions, operand intervals and linear-arithmetic entailment between symbolic quantities; the TAP reader's sites by a proved inductive invariant (all exits incl. I/O errors); the rest matched against a reviewed table; allocation-taint rule; EOF/no-progress loop rule",
-      "All loader entry points (SNA, SZX, SCR, TAP deck, fast loader, ROM loader, BufferCursor, read_exact, VTX load, Player::new) on both machines: no undischarged assert/index/range/copy-length/panic site outside the reviewed table, no unbounded asset-sized allocation, no read loop that spins at end of data.",
+      "potential-panic inventory: path-sensitive interpretation of every loader entry with the asset as an opaque source of bytes, lengths and failures; sites discharged by constants, dominating branch conditions, operand intervals and linear-arithmetic entailment between symbolic quantities; the TAP reader's sites by a proved inductive invariant (all exits incl. I/O errors); the rest matched against a reviewed table; allocation-taint rule; EOF/no-progress loop rule; per-caller keys for panics in shared helpers with linear-arithmetic discharge of infeasible panic paths; CFG must-pass-through for the VTX frequency guard; SeekFrom-literal rule for every seek call site",
+      "All loader entry points (SNA, SZX, SCR, TAP deck, fast loader, ROM loader, BufferCursor, read_exact, VTX load, Player::new) on both machines: no undischarged assert/index/range/copy-length/panic site outside the reviewed table, no unbounded asset-sized allocation, no read loop that spins at end of data. Reviewed entries cite only facts a rule of this check decides (RAM page validated by the SZX caller, VTX frequency compared with 0 before the tune is built, relative seeks constant).",
       "Not decided: time/memory of external decompressors (no MIR), 'still emulates afterwards' beyond validated field values and the TAP window invariant. Reviewed-table entries (6) rest on stated invariants (reviewed_sites.txt).",
       "DESIGN.md §3 C15")
